@@ -140,12 +140,20 @@ namespace bloch::compiler {
             return false;
         };
 
+        // A type is statically unknown only when it carries neither a primitive tag nor a class or
+        // array name; class references and arrays have the tag Unknown but are known types.
+        bool isUnknownType(const SemanticAnalyser::TypeInfo& t);
+
         bool isArrayTypeName(const std::string& name) {
             return name.size() >= 2 && name.rfind("[]") == name.size() - 2;
         }
 
         bool isArrayType(const SemanticAnalyser::TypeInfo& t) {
             return !t.className.empty() && isArrayTypeName(t.className);
+        }
+
+        bool isUnknownType(const SemanticAnalyser::TypeInfo& t) {
+            return t.value == ValueType::Unknown && t.className.empty();
         }
 
         bool isClassRefType(const SemanticAnalyser::TypeInfo& t) {
@@ -449,6 +457,8 @@ namespace bloch::compiler {
         }
 
         if (expected.className.empty()) {
+            if (expected.value != ValueType::Unknown && !actual.className.empty())
+                return false;  // a class reference or array where a primitive is declared
             if (expected.value == ValueType::Unknown || actual.value == ValueType::Unknown)
                 return true;
             if (actual.className.empty())
@@ -833,7 +843,7 @@ namespace bloch::compiler {
 
         if (auto primType = targetInfo.value; primType != ValueType::Unknown) {
             ValueType initT = initInfo.value;
-            if (!matchesPrimitive(primType, initT)) {
+            if (!initInfo.className.empty() || !matchesPrimitive(primType, initT)) {
                 if (primType == ValueType::Bit) {
                     if (auto lit = dynamic_cast<LiteralExpression*>(initializer)) {
                         if (lit->literalType == "int") {
@@ -863,8 +873,7 @@ namespace bloch::compiler {
                     throw BlochError(ErrorCategory::Semantic, line, column,
                                      "initialiser for '" + name + "' cannot be null");
                 }
-            } else if (!isAssignableType(targetInfo, initInfo) &&
-                       initInfo.value != ValueType::Unknown) {
+            } else if (!isAssignableType(targetInfo, initInfo) && !isUnknownType(initInfo)) {
                 throw BlochError(
                     ErrorCategory::Semantic, line, column,
                     "initialiser for '" + name + "' expected '" + typeLabel(targetInfo) + "'");
@@ -1690,7 +1699,8 @@ namespace bloch::compiler {
                         throw BlochError(ErrorCategory::Semantic, node.line, node.column,
                                          "return type mismatch");
                     }
-                } else if (!matchesPrimitive(m_currentReturn.value, actual.value)) {
+                } else if (!actual.className.empty() ||
+                           !matchesPrimitive(m_currentReturn.value, actual.value)) {
                     throw BlochError(ErrorCategory::Semantic, node.line, node.column,
                                      "return type mismatch");
                 }
@@ -1853,8 +1863,7 @@ namespace bloch::compiler {
                         throw BlochError(ErrorCategory::Semantic, node.line, node.column,
                                          "cannot assign null to '" + node.name + "'");
                     }
-                } else if (valType.value != ValueType::Unknown &&
-                           !isAssignableType(targetType, valType)) {
+                } else if (!isUnknownType(valType) && !isAssignableType(targetType, valType)) {
                     throw BlochError(ErrorCategory::Semantic, node.line, node.column,
                                      "assignment to '" + node.name + "' expects '" +
                                          typeLabel(targetType) + "'");
@@ -1879,13 +1888,13 @@ namespace bloch::compiler {
                     }
                 }
                 if (!targetType.className.empty() && valType.value != ValueType::Null &&
-                    valType.value != ValueType::Unknown && !isAssignableType(targetType, valType)) {
+                    !isUnknownType(valType) && !isAssignableType(targetType, valType)) {
                     throw BlochError(ErrorCategory::Semantic, node.line, node.column,
                                      "assignment to field '" + node.name + "' expects '" +
                                          typeLabel(targetType) + "'");
-                } else if (field->type.value != ValueType::Unknown &&
-                           valType.value != ValueType::Unknown &&
-                           !matchesPrimitive(targetType.value, valType.value)) {
+                } else if (targetType.className.empty() &&
+                           field->type.value != ValueType::Unknown && !isUnknownType(valType) &&
+                           !isAssignableType(targetType, valType)) {
                     throw BlochError(ErrorCategory::Semantic, node.line, node.column,
                                      "assignment to field '" + node.name + "' expects '" +
                                          typeToString(targetType.value) + "'");
@@ -2180,8 +2189,9 @@ namespace bloch::compiler {
                                              "' expected '" + typeLabel(expected) + "'");
                     }
                 } else if (expected.value != ValueType::Unknown &&
-                           actual.value != ValueType::Unknown &&
-                           !matchesPrimitive(expected.value, actual.value)) {
+                           (!actual.className.empty() ||
+                            (actual.value != ValueType::Unknown &&
+                             !matchesPrimitive(expected.value, actual.value)))) {
                     throw BlochError(ErrorCategory::Semantic, arg->line, arg->column,
                                      "argument #" + std::to_string(i + 1) + " to '" + name +
                                          "' expected '" + typeToString(expected.value) + "'");
@@ -2522,8 +2532,7 @@ namespace bloch::compiler {
                         throw BlochError(ErrorCategory::Semantic, node.line, node.column,
                                          "cannot assign null to '" + node.name + "'");
                     }
-                } else if (valType.value != ValueType::Unknown &&
-                           !isAssignableType(targetType, valType)) {
+                } else if (!isUnknownType(valType) && !isAssignableType(targetType, valType)) {
                     throw BlochError(ErrorCategory::Semantic, node.line, node.column,
                                      "assignment to '" + node.name + "' expects '" +
                                          typeLabel(targetType) + "'");
@@ -2548,13 +2557,13 @@ namespace bloch::compiler {
                     }
                 }
                 if (!targetType.className.empty() && valType.value != ValueType::Null &&
-                    valType.value != ValueType::Unknown && !isAssignableType(targetType, valType)) {
+                    !isUnknownType(valType) && !isAssignableType(targetType, valType)) {
                     throw BlochError(ErrorCategory::Semantic, node.line, node.column,
                                      "assignment to field '" + node.name + "' expects '" +
                                          typeLabel(targetType) + "'");
-                } else if (field->type.value != ValueType::Unknown &&
-                           valType.value != ValueType::Unknown &&
-                           !matchesPrimitive(targetType.value, valType.value)) {
+                } else if (targetType.className.empty() &&
+                           field->type.value != ValueType::Unknown && !isUnknownType(valType) &&
+                           !isAssignableType(targetType, valType)) {
                     throw BlochError(ErrorCategory::Semantic, node.line, node.column,
                                      "assignment to field '" + node.name + "' expects '" +
                                          typeToString(targetType.value) + "'");
@@ -2628,13 +2637,12 @@ namespace bloch::compiler {
                 }
             }
             if (!targetType.className.empty() && valType.value != ValueType::Null &&
-                valType.value != ValueType::Unknown && !isAssignableType(targetType, valType)) {
+                !isUnknownType(valType) && !isAssignableType(targetType, valType)) {
                 throw BlochError(ErrorCategory::Semantic, node.line, node.column,
                                  "assignment to field '" + node.member + "' expects '" +
                                      typeLabel(targetType) + "'");
-            } else if (targetType.value != ValueType::Unknown &&
-                       valType.value != ValueType::Unknown &&
-                       !matchesPrimitive(targetType.value, valType.value)) {
+            } else if (targetType.className.empty() && targetType.value != ValueType::Unknown &&
+                       !isUnknownType(valType) && !isAssignableType(targetType, valType)) {
                 throw BlochError(ErrorCategory::Semantic, node.line, node.column,
                                  "assignment to field '" + node.member + "' expects '" +
                                      typeToString(targetType.value) + "'");
